@@ -23,7 +23,7 @@ def const_struct_field0(t):
 
 def run(ctx, rep):
     prog = ctx.program("default")
-    rep.configs.append("default")
+    rep.configs.append(getattr(ctx, "alias", "default"))
     impls = prog.impls_of_trait(CM)
     rep.floor("R20.1", "ColorMapping impls", len(impls), 12)
     for impl in sorted(impls, key=lambda i: ty_str(i["self_ty"])):
